@@ -146,6 +146,17 @@ def check(mod, tier: str, seed: int, *, replay: str | None = None, report_as: st
         else:
             rep = json.loads(pathlib.Path(replay).read_text())
             cases = [rep["case"]]
+        # the same questions asked AGAIN of the same objects at the end of a case (for drivers whose events are independent
+        # of one another): whatever an object remembers between calls must not change its answers
+        rep = int(getattr(mod, "REPEAT_EVENTS", 0))
+        if rep and replay is None:
+            import random as _random
+            for c in cases:
+                evs = c.get("events") or []
+                if evs and not c.get("_repeated"):
+                    r_ = _random.Random(len(evs) * 7919 + seed)
+                    c["events"] = evs + [dict(e) for e in r_.sample(evs, min(rep, len(evs)))]
+                    c["_repeated"] = True
         for k, c in enumerate(cases):
             c.setdefault("tid", k + 1)
         records = run_cases(mod, cases, jobs if getattr(mod, "PARALLEL", True) else 1)
